@@ -14,12 +14,13 @@
 (* A program (JSON):                                                           *)
 (*   fam   "cont" | "box" | "vis" | "rh"                                       *)
 (*   objs  <<ego, other>> or <<obj>>; an object is                             *)
-(*         [fixed, pos, base, poly, off, sizes, yaw, facing, vis, vd]          *)
+(*         [fixed, pos, base, poly, off, sizes, yaws, pitches, rolls, facing, vis, vd]          *)
 (*           fixed/pos : placed `at` pos (no base)                             *)
 (*           base      : <<box, ...>>  box = <<x0,y0,z0,x1,y1,z1>>             *)
 (*           off       : <<ox,oy>> horizontal offset position - base point     *)
 (*           sizes     : <<<<w,l,h>>, ...>> discrete alternatives              *)
-(*           yaw       : quarter turns;  facing: heading = field at position   *)
+(*           yaws, pitches, rolls : lattice values (quarter turns) of the pose  *)
+(*           facing    : heading = field at position                            *)
 (*           vis       : "none" | "requireVisible" | "visible" (seen by ego)   *)
 (*           vd        : visibleDistance                                       *)
 (*   cont  container (workspace) boxes, <<>> = none                           *)
@@ -89,9 +90,20 @@ NObj(q) == Len(Progs[q].objs)
 Other(k) == 3 - k
 Movable(q) == {k \in 1..NObj(q) : ~Obj(q, k).fixed}
 
-\* half extents of the object's box for a size alternative
-HalfExt(o, sz) == IF o.yaw % 2 = 0 THEN <<sz[1] \div 2, sz[2] \div 2, sz[3] \div 2>>
-                  ELSE <<sz[2] \div 2, sz[1] \div 2, sz[3] \div 2>>
+\* Poses.  An orientation is intrinsic yaw (about Z), pitch (about X), roll (about Y), each a
+\* number of quarter turns; o.yaws / o.pitches / o.rolls list the lattice values the property
+\* can take (one value: a constant; several: a discrete Uniform, or the lattice angles inside a
+\* Range -- its end points are limits of poses of positive probability, and probes keep a
+\* quarter unit from every boundary, so a pose that fits at an end point fits nearby too).
+\* Half extents of the box (w, l, h) along the world axes: R = Rz Rx Ry permutes the axes,
+\* an odd roll swaps X/Z first, then an odd pitch swaps Y/Z, then an odd yaw swaps X/Y.
+SeqSet(s) == {s[i] : i \in 1..Len(s)}
+Poses(o) == SeqSet(o.yaws) \X SeqSet(o.pitches) \X SeqSet(o.rolls)
+HalfExt(sz, pose) ==
+  LET a == IF pose[3] % 2 = 1 THEN <<sz[3], sz[2], sz[1]>> ELSE sz
+      b == IF pose[2] % 2 = 1 THEN <<a[1], a[3], a[2]>> ELSE a
+      c == IF pose[1] % 2 = 1 THEN <<b[2], b[1], b[3]>> ELSE b
+  IN <<c[1] \div 2, c[2] \div 2, c[3] \div 2>>
 PosOf(o, p) == <<p[1] + o.off[1], p[2] + o.off[2], p[3]>>
 Lo(c, h) == <<c[1] - h[1], c[2] - h[2], c[3] - h[3]>>
 Hi(c, h) == <<c[1] + h[1], c[2] + h[2], c[3] + h[3]>>
@@ -120,7 +132,6 @@ HeadingAt(q, p) == LET f == Progs[q].field IN
    THEN f[CHOOSE i \in 1..Len(f) : InBox(p, f[i][1])][2] ELSE 999
 
 \* witnesses: probe positions of object k inside its base, with the heading there
-SeqSet(s) == {s[i] : i \in 1..Len(s)}
 WitT == [q \in 1..NP |-> [k \in 1..NObj(q) |->
    IF Obj(q, k).fixed THEN {<<Obj(q, k).pos[1], Obj(q, k).pos[2], Obj(q, k).pos[3], 999>>}
    ELSE {<<w[1], w[2], w[3], HeadingAt(q, w)>> :
@@ -143,8 +154,8 @@ SatReq(r, d2, hb, ht) ==
 \* visible distance; slack = 0 exact, slack = 1 robust (a quarter unit inside)
 SeesSome(q, pe, po, slack) ==
   LET e == Obj(q, 1) o == Obj(q, 2) IN
-  \E n \in 1..Len(o.sizes) :
-     LET h == HalfExt(o, o.sizes[n]) c == PosOf(o, po) IN
+  \E n \in 1..Len(o.sizes) : \E pose \in Poses(o) :
+     LET h == HalfExt(o.sizes[n], pose) c == PosOf(o, po) IN
        IF slack = 0 THEN Gap2(pe, Lo(c, h), Hi(c, h)) < Sq(e.vd)
        ELSE e.vd > slack /\ Gap2(pe, Lo(c, h), Hi(c, h)) <= Sq(e.vd - slack)
 
@@ -154,12 +165,13 @@ PairOK(q, we, wo, slack) ==
         SatReq(Reqs(q)[i], Dist2(<<we[1], we[2], we[3]>>, <<wo[1], wo[2], wo[3]>>), we[4], wo[4])
   /\ (Obj(q, 2).vis # "none") => SeesSome(q, <<we[1], we[2], we[3]>>, <<wo[1], wo[2], wo[3]>>, slack)
 
-\* the object alone: some size alternative fits into the container
+\* the object alone: some size alternative in some pose (position AND orientation) fits into
+\* the container
 FitsAlone(q, k, p) ==
   LET o == Obj(q, k) IN
   Progs[q].cont = <<>> \/
-  \E n \in 1..Len(o.sizes) :
-     LET h == HalfExt(o, o.sizes[n]) c == PosOf(o, p) IN BoxInUnion(Lo(c, h), Hi(c, h), Progs[q].cont)
+  \E n \in 1..Len(o.sizes) : \E pose \in Poses(o) :
+     LET h == HalfExt(o.sizes[n], pose) c == PosOf(o, p) IN BoxInUnion(Lo(c, h), Hi(c, h), Progs[q].cont)
 
 InBase(q, k, p) == InUnion(p, Obj(q, k).base)
 
@@ -177,7 +189,9 @@ FeasibleV(q, k, p) == FeasibleS(q, k, p, 1)        \* used for the verdict
 \* (1) containment: erode the container by (min inradius - max offset) when positive
 MinOf(S) == CHOOSE x \in S : \A y \in S : x <= y
 MaxOf(S) == CHOOSE x \in S : \A y \in S : x >= y
-Flat(o) == o.poly                 \* a polygonal base and no pitch/roll: planar inradius
+\* the planar inradius may be used only for an object KNOWN to lie flat: polygonal base, pitch
+\* and roll both the constant 0 (a random pitch or roll, whatever its support, is not flat)
+Flat(o) == o.poly /\ o.pitches = <<0>> /\ o.rolls = <<0>>
 InRad(o, sz) == IF Flat(o) THEN Min2(sz[1], sz[2]) \div 2 ELSE Min2(Min2(sz[1], sz[2]), sz[3]) \div 2
 MinInRad(o) == MinOf({InRad(o, o.sizes[n]) : n \in 1..Len(o.sizes)})
 OffNorm(o) == ISqrtCeil(Sq(o.off[1]) + Sq(o.off[2]))     \* generator keeps it a perfect square
